@@ -186,6 +186,15 @@ def lean_phase(mod, tier: str):
             dst = rundir / f"{mod.DRIVER}.{os.getpid()}"
             shutil.copy2(LEAN / ".lake" / "build" / "bin" / mod.DRIVER, dst)
             os.environ["VERIF_DRIVER_EXE"] = str(dst)
+        if REPO != Path("/repo"):
+            # an experiment on another checkout: put the generated tables back to what /repo says before the lock is released,
+            # so that nobody else building in lean/ ever sees tables of the scratch tree (a fresh interpreter: this one has the
+            # scratch checkout's modules imported)
+            try:
+                env = {k: v for k, v in os.environ.items() if k != "VERIF_REPO"}
+                subprocess.run([sys.executable, str(VERIF / "tools" / "translate.py"), "/repo"], env=env, capture_output=True, timeout=300)
+            except Exception:  # noqa: BLE001
+                pass
         return res
 
 
